@@ -91,3 +91,13 @@ package processors
 //@ loop 1 invariant [non-component-untouched] forall(k, int, implies(0 <= k && k < len(properties) && properties[k].PropertyType != component_definition.PropertyTypeComponent, properties[k].Injects == old(properties[k].Injects)), properties[k])
 //@ loop 1 invariant [frame] forall(p, *component_definition.Property, implies(forall(k, int, implies(0 <= k && k < len(properties), properties[k] != p)), p.Injects == old(p.Injects)))
 //@ loop 1 invariant [candidate-lists-kept] forall(k, int, forall(i, int, implies(0 <= k && k < len(properties) && 0 <= i && i < len(old(properties[k].Injects)), oldat(old(properties[k].Injects), i) == old(properties[k].Injects)[i])))
+
+// ---- tag scanning (C11, C19) -----------------------------------------------------------------------------------------
+
+// prop:"key,args" is shorthand for value:"${key},args": split at the first top-level comma (totality: the two slice
+// expressions are in range for every tag text; the rendered text itself goes through fmt.Sprintf, A-LOG/A-LIB).
+//@ func NewValueAwarePostProcessors$1
+//@ property C19 C11
+//@ requires [field-built] field != nil
+//@ assigns nothing
+//@ ensures [only-prop-tagged] ok == TagHas(field.StructField.Tag, definition.PropTag)
